@@ -442,7 +442,7 @@ fn reference(lead: Option<&'static Addr>, toks: &[&Tok]) -> Exp {
             }
             Sem::Memo(m) => {
                 if !a.memo_ok {
-                    return Exp::Reject("memo-to-transparent");
+                    return Exp::Reject("memo-to-recipient-without-memo-capability");
                 }
                 p.memo = Some(m.clone());
             }
@@ -536,7 +536,7 @@ fn sweep_uris(run: &Run, tier: Tier) {
     let mut memo512 = vec![0xf5u8; 512];
     memo512[511] = 7;
     let s1: Vec<usize> = vec![tok("amount.1=0"), tok("amount.1=0.00000001"), tok(&format!("memo.1={}", b64url(&memo512))), tok("label.1=a%20b")];
-    run.section("recipients", json!(addrs().iter().map(|a| json!({"name": a.name, "memo_allowed": a.memo_ok, "transparent_output": a.t_only})).collect::<Vec<_>>()));
+    run.section("recipients", json!(addrs().iter().map(|a| json!({"name": a.name, "kind": format!("{:?}", a.kind), "memo_allowed": a.memo_ok, "transparent_output": a.t_only})).collect::<Vec<_>>()));
     let mut seen_strings: BTreeSet<&str> = BTreeSet::new();
     for (k, a) in addrs().iter().enumerate() {
         if !seen_strings.insert(a.s.as_str()) {
